@@ -26,7 +26,12 @@ def _call_periodic(loop: asyncio.BaseEventLoop, name, interval, callback):
 
     def run(handle, n=1, fn=callback):
         # n: the interval boundary (start + n * interval) this tick serves
-        r = fn()
+        try:
+            r = bool(fn())
+        except BaseException:
+            # the timer does not go on after a failing callback: make it know (.timerc then reports 0)
+            handle.cancel()
+            raise
         if r and handle.delegate is not None:
             if interval == 0:
                 handle.delegate = loop.call_soon(run, handle)
